@@ -7,7 +7,7 @@ CONSTANTS
   MaxEvents = 1
   MaxLeaves = 4
   MaxOps = 7
-  Faults = {"stmt", "ctx"}
+  Faults = {"stmt", "ctx", "commit"}
   AllowGap = FALSE
   AllowRestart = TRUE
   AllowReorg = TRUE
